@@ -206,6 +206,8 @@ pub struct ExpPub {
     /// call is not observable)
     pub snaps: Vec<Vec<u128>>,
     pub auto: bool,
+    /// objects removed by the application whose transfer was still running at publish time (Start seen, no Stop yet)
+    pub removed_tx: Vec<u128>,
 }
 
 pub struct Inst {
@@ -367,12 +369,14 @@ impl FdtEngine {
             None => return true,
         };
         let mtl = oti.max_transfer_length() as u64;
-        if mtl >= (1 << 24) && o.b as u64 + o.p as u64 <= 256 && o.enc != 6 && o.enc != 1 && !((o.enc == 5 || o.enc == 129) && o.p == 0) {
+        let groups_plain = cfg.groups.as_ref().map(|g| g.iter().all(|x| x.chars().all(|c| c >= ' ' && c < '\u{fffe}'))).unwrap_or(true);
+        if groups_plain && mtl >= (1 << 24) && o.b as u64 + o.p as u64 <= 256 && o.enc != 6 && o.enc != 1 && !((o.enc == 5 || o.enc == 129) && o.p == 0) {
             return true; // far above any instance this engine generates: skip the serialisation
         }
         let xml = match guarded(AssertUnwindSafe(|| s.fdt_xml_data(st(now)))) {
             Ok(Ok(x)) => x,
-            _ => return true,
+            Ok(Err(_)) => return false, // `to_xml` itself refuses (FDT-level group XML 1.0 cannot carry)
+            Err(_) => return true,
         };
         let len = if cfg.fdt_cenc == 0 {
             xml.len() as u64
@@ -392,6 +396,10 @@ impl FdtEngine {
             1 => o.scheme.is_some() && nb <= 65535,
             _ => true,
         }
+    }
+
+    pub fn removed_in_tx(&self) -> Vec<u128> {
+        self.objs.values().filter(|o| o.removed && o.transferring).map(|o| o.toi).collect()
     }
 
     fn note_publication(&mut self, time: u64) {
@@ -607,6 +615,7 @@ impl FdtEngine {
         // classify
         let mut fdt_first: Option<u32> = None;
         let mut fdt_version: u32 = 0;
+        let mut fdt_npk: u64 = 0;
         let mut fdt_pkt = false;
         if let Some(p) = &pkt {
             if let Ok(a) = flute::core::alc::parse_alc_pkt(p) {
@@ -617,6 +626,11 @@ impl FdtEngine {
                             if pid.sbn == 0 && pid.esi == 0 {
                                 fdt_first = Some(fi.fdt_instance_id);
                                 fdt_version = fi.version;
+                                // packets of this FDT transfer: source symbols + the parity symbols of every block
+                                let l = a.transfer_length.unwrap_or(0);
+                                let c = &self.cfg.as_ref().unwrap().oti;
+                                let q = hk::block_partitioning(c.b as u64, l, c.e as u64);
+                                fdt_npk = (l + c.e as u64 - 1) / (c.e as u64).max(1) + c.p as u64 * q.3;
                             }
                         }
                     }
@@ -661,12 +675,15 @@ impl FdtEngine {
             }
             if *start && !full && self.admits_now(now) {
                 let snap = self.shadow_listed();
-                self.expq.push_back(ExpPub { time: now, snaps: vec![snap], auto: false });
+                self.expq.push_back(ExpPub { time: now, snaps: vec![snap], auto: false, removed_tx: self.removed_in_tx() });
                 self.note_publication(now);
             }
         }
         let snap_after = self.shadow_listed();
         // only calls in which a publication can be attempted need the (costly) admission outcome
+        if fdt_first.is_some() {
+            hints.insert(0, format!("n{}", fdt_npk));
+        }
         let admitted = if polled || !evs.is_empty() { self.admits_now(now) } else { true };
         if !admitted {
             hints.insert(0, "X".into());
@@ -691,7 +708,7 @@ impl FdtEngine {
                     None => {
                         // not announced by publish()/StartTransfer: the sender republished in this call
                         self.note_publication_auto(now, o);
-                        ExpPub { time: now, snaps: vec![snap_before.clone(), snap_after.clone()], auto: true }
+                        ExpPub { time: now, snaps: vec![snap_before.clone(), snap_after.clone()], auto: true, removed_tx: Vec::new() }
                     }
                 };
                 let k = self.insts.len() as u64;
@@ -865,7 +882,7 @@ impl Engine for FdtEngine {
                                 o.fail("publish-admission", "publish() succeeded although the FDT object does not fit the session default OTI");
                             }
                             let snap = self.shadow_listed();
-                            self.expq.push_back(ExpPub { time: now, snaps: vec![snap], auto: false });
+                            self.expq.push_back(ExpPub { time: now, snaps: vec![snap], auto: false, removed_tx: self.removed_in_tx() });
                             self.note_publication(now);
                             if expect_refused { "HINT-MISMATCH ok".into() } else { "ok".into() }
                         }
